@@ -32,13 +32,14 @@ type Batch struct {
 	Srcs     []Src
 	CompErrs map[string]string // package -> compiler messages
 	Built    []string          // packages in the binary
+	div      map[string]int    // parser -> number of parses the watchdog had to stop
 }
 
 var batchCounter int
 
 const modPath = "github.com/acekingke/yaccgo"
 
-var errLine = regexp.MustCompile(`(?m)^(?:\./)?(?:verifsim/gen/[^/]+/)?(p\d+)/[^:\s]+:\d+`)
+var errLine = regexp.MustCompile(`(?m)^(?:\./)?(?:verifsim/gen/[^/]+/)?(p[\d_]+)/[^:\s]+:\d+`)
 
 // Build writes the Go sources of the batch and builds the driver; packages that
 // do not compile are recorded in CompErrs and left out (the rest is rebuilt).
@@ -152,8 +153,14 @@ func (b *Batch) Run(jobs []engbrt.Job) ([]engbrt.JobResult, error) {
 	cmd := exec.Command(b.Bin, jf, rf)
 	var out bytes.Buffer
 	cmd.Stdout, cmd.Stderr = &out, &out
-	if err := cmd.Run(); err != nil {
-		return nil, fmt.Errorf("driver died: %v\n%s", err, tail(out.String(), 3000))
+	runErr := cmd.Run()
+	diverged := false
+	if runErr != nil {
+		if cmd.ProcessState != nil && cmd.ProcessState.ExitCode() == 3 {
+			diverged = true
+		} else {
+			return nil, fmt.Errorf("driver died: %v\n%s", runErr, tail(out.String(), 3000))
+		}
 	}
 	rb, err := os.ReadFile(rf)
 	if err != nil {
@@ -161,10 +168,42 @@ func (b *Batch) Run(jobs []engbrt.Job) ([]engbrt.JobResult, error) {
 	}
 	var res []engbrt.JobResult
 	if err := json.Unmarshal(rb, &res); err != nil {
-		return nil, err
+		return nil, fmt.Errorf("driver results unreadable (%v; %d bytes; exit %v; diverged=%v): %s", err, len(rb), runErr, diverged, tail(out.String(), 1500))
 	}
 	os.Remove(jf)
 	os.Remove(rf)
+	if diverged {
+		// the watchdog stopped the driver inside job len(res)-1: continue with what is left
+		k := len(res) - 1
+		last := &res[k]
+		var rest []engbrt.Job
+		if b.div == nil {
+			b.div = map[string]int{}
+		}
+		b.div[jobs[k].Parser]++
+		nd := b.div[jobs[k].Parser]
+		if jobs[k].Kind == "parses" && last.Diverged >= 0 && nd >= 3 {
+			// this parser diverges again and again: do not spend more wall clock on it
+			for i := last.Diverged + 1; i < len(jobs[k].Feeds); i++ {
+				last.Parses = append(last.Parses, engbrt.ParseResult{Outcome: "notrun", Msg: "skipped after repeated divergence"})
+			}
+		} else if jobs[k].Kind == "parses" && last.Diverged >= 0 && last.Diverged+1 < len(jobs[k].Feeds) {
+			cont := jobs[k]
+			cont.Feeds = jobs[k].Feeds[last.Diverged+1:]
+			cont.Tag = "\x00cont"
+			rest = append(rest, cont)
+		}
+		rest = append(rest, jobs[k+1:]...)
+		more, err := b.Run(rest)
+		if err != nil {
+			return nil, err
+		}
+		if len(more) > 0 && more[0].Tag == "\x00cont" {
+			last.Parses = append(last.Parses, more[0].Parses...)
+			more = more[1:]
+		}
+		res = append(res, more...)
+	}
 	return res, nil
 }
 
